@@ -109,3 +109,30 @@ fn k_rings_orientation_concrete() {
         assert!(crate::record::ring_type_from_points_ordering(&cw) == crate::record::RingType::OuterRing);
     }
 }
+
+/// C16: every ring kind of a multipatch (outer, inner, first, ring) is closed by the constructor when given open;
+/// triangle strips and fans are left as given
+#[kani::proof]
+#[kani::unwind(8)]
+fn k_rings_multipatch_closes_every_ring_kind() {
+    let z = |x: f64, y: f64| PointZ::new(x, y, 1.0, NO_DATA);
+    let open = || vec![z(0.0, 0.0), z(0.0, 4.0), z(4.0, 4.0)];
+    let mp = Multipatch::with_parts(vec![
+        Patch::OuterRing(open()),
+        Patch::InnerRing(open()),
+        Patch::FirstRing(open()),
+        Patch::Ring(open()),
+        Patch::TriangleStrip(open()),
+        Patch::TriangleFan(open()),
+    ]);
+    let p = mp.patches();
+    assert!(p.len() == 6);
+    let mut i = 0;
+    while i < 4 {
+        let pts = p[i].points();
+        assert!(pts.len() == 4 && pts[3].x == pts[0].x && pts[3].y == pts[0].y && pts[1].y == 4.0);
+        i += 1;
+    }
+    assert!(matches!(p[0], Patch::OuterRing(_)) && matches!(p[1], Patch::InnerRing(_)) && matches!(p[2], Patch::FirstRing(_)) && matches!(p[3], Patch::Ring(_)));
+    assert!(p[4].points().len() == 3 && p[5].points().len() == 3);
+}
